@@ -140,6 +140,7 @@ pub fn run(ctx: &mut Ctx) {
     ctx.rule("prefixes: every truncation point of the seed archives and repository fixtures; subst: every one of the 255 substitute values at every byte outside the entry data of the seeds (headers, central directory, end records); havoc: random multi-site edits, cuts and duplicated chunks; hostile: structure-aware specs whose headers lie (counts/sizes/offsets at 0, 1, 2^16, 2^32, 2^63, 2^64-1 and +-1, AES extra records with and without the encryption flag, method 99 anywhere, encrypted entries shorter than their crypto header, long runs of one record signature in front), built by the independent builder then field-edited. Each input goes through ZipArchive::new + every accessor + by_index/by_index_raw/by_index_decrypt/by_name(_decrypt) + capped reads, read_zipfile_from_stream with none/partial/full consumption, ZipStreamReader::visit, and ZipWriter::new_append followed by finish and by drop. Oracle: no panic/abort; I/O calls while opening <= 16*len+1e6; peak heap while opening <= 512*len+2MiB. Non-trivial = accepted by at least one opener.");
     ctx.assume("reads are capped at 1 MiB of output per entry so decompression bombs cost bounded work; memory is measured on the Rust heap of the calling thread around ZipArchive::new / new_append only");
     ctx.assume("a loop that never touches the stream would only trip the supervisor's watchdog (exit 2)");
+    ctx.assume("inputs with >= 64 'PK' pairs are exercised on a thread with a 1 MiB stack, so that stack use growing with the number of records shows up as a stack overflow (process abort)");
     ctx.assume("known finding bzip2-c-decoder-uninitialised-read (libbz2 reading uninitialised decoder tables on crafted Bzip2 entries; crashes or not depending on heap garbage): a worker killed by a fatal signal raised inside libbz2 is restarted with that case left out (coverage.excluded_by_known_finding counts them); the stored reproducer is re-run with MALLOC_PERTURB_=1 in a child process on every run");
     if let Some(c) = ctx.replay_case("fuzz_raw") {
         let bytes = crate::util::unhex(c["bytes"].as_str().unwrap_or("")).unwrap_or_default();
@@ -264,7 +265,7 @@ pub fn run(ctx: &mut Ctx) {
                     4 => Just(Content::Bytes(vec![])),
                     2 => (any::<u64>(), 1u32..100).prop_map(|(s, l)| Content::Rand { seed: s, len: l }),
                     // long runs of one record signature (split-archive markers, headers, end records) in front
-                    1 => (proptest::sample::select(vec![*b"PK\x07\x08", *b"PK00", *b"PK\x03\x04", *b"PK\x01\x02", *b"PK\x05\x06", *b"PK\x06\x06", *b"PK\x06\x07"]), proptest::sample::select(vec![1usize, 16, 300, 600, 5000, 16000])).prop_map(|(sig, n)| Content::Bytes(sig.repeat(n))),
+                    1 => (proptest::sample::select(vec![*b"PK\x07\x08", *b"PK00", *b"PK\x03\x04", *b"PK\x01\x02", *b"PK\x05\x06", *b"PK\x06\x06", *b"PK\x06\x07"]), proptest::sample::select(vec![1usize, 16, 300, 600, 5000, 16000, 60000])).prop_map(|(sig, n)| Content::Bytes(sig.repeat(n))),
                 ],
                 proptest::collection::vec(any::<u8>(), 0..10),
                 proptest::collection::vec((any::<u16>(), 0u8..48).prop_map(|(field, value)| FieldEdit { field, value }), 0..4),
